@@ -27,6 +27,7 @@ pub fn run_case(case: &Case, opts: ExecOpts) -> CaseResult {
     let mut internal = std::mem::take(&mut ex.internal_errors);
     let cov = ex.cov.clone();
     let had_problem = ex.fatal || !internal.is_empty();
+    let leaked_by_fault = ex.leaked_by_fault;
     let r2 = std::panic::catch_unwind(std::panic::AssertUnwindSafe(move || drop(ex)));
     if r2.is_err() {
         internal.push("panic while dropping the interpreter".into());
@@ -45,7 +46,8 @@ pub fn run_case(case: &Case, opts: ExecOpts) -> CaseResult {
             }
         }
     }
-    if !end.leaked_watched.is_empty() && !had_problem {
+    // (a value whose destructor unwound during arena teardown keeps its block)
+    if end.leaked_watched.len() > leaked_by_fault && !had_problem {
         violations.push(mk("C04", "blocks-outstanding", format!("{} Gc blocks never returned to the allocator", end.leaked_watched.len())));
     }
     // detach everything from this thread's allocator bookkeeping
